@@ -117,7 +117,7 @@ func c04Run(c *core.Ctx, r *core.Result, ch c04Chain) {
 	d.DB.SetHooks(&sqlw.Hooks{After: func(op *sqlw.Op, err error) {
 		if op.Kind == "commit" && err == nil {
 			if v, e := ReadLedger(d.DBFile()); e == nil {
-				states[d.Node.Sync.Synced] = v
+				states[v.Synced] = v
 			}
 		}
 	}})
